@@ -824,9 +824,18 @@ def audit(ctx, F, cg, entries, prop, configs=("lib",), extra_discharge=(), floor
         cgc = cg if Fc is F else __import__("sa.callgraph", fromlist=["build"]).build(Fc)
         rch = cgc.reach(entries) if reach is None or Fc is not F else reach
         budget = {}
+        groups = {}      # group name -> the one budget cell its members share
         for a in allow:
             k0 = (a["owner"], a["kind"], a["detail"])
-            if k0 in budget:
+            g = a.get("group")
+            if g:
+                # alternative forms of one site (the reference form and an accepted second form of the same computation): a tree
+                # has one of them, so the members share one budget — the form that is absent leaves no slack for a new site
+                cell = groups.setdefault(g, [0, ""])
+                cell[0] = max(cell[0], a["count"])
+                cell[1] = (cell[1] + " / " if cell[1] else "") + a["reason"]
+                budget[k0] = cell
+            elif k0 in budget:
                 budget[k0][0] += a["count"]
                 budget[k0][1] += " / " + a["reason"]
             else:
